@@ -138,7 +138,13 @@ class AsmData:
             return
         st = run.stmts[-1]
         if not fits:
-            env.fail("C05:rejects-unfit", ("C05",), sig("accepted-unfit:emitted=%d" % len(st.bytes)), split=sp)
+            def how():
+                # root cause feature: does the statement occupy more bytes than the list has elements (unfit elements are rendered
+                # with all their hex digits: FCB 1,256 -> 01 01 00), or exactly as many (the value is cut to the width)
+                w = 1 if d == "FCB" else 2
+                e = len(st.bytes)
+                return "truncated" if e == w * len(vals) else "longer" if e > w * len(vals) else "shorter"
+            env.fail("C05:rejects-unfit", ("C05",), sig("accepted-unfit:%s:emitted=%d" % (how() if native else "-", len(st.bytes))), split=sp)
             return
         env.ensure("C02:size", st.size == len(st.bytes), ("C02",), sig("size=%s,len=%d" % (st.size, len(st.bytes))), split=sp)
         if len(st.bytes) != width * len(vals):
